@@ -22,6 +22,8 @@
 -/
 import Gama.Lemmas.Ls.ComposeEnvSolve
 import Gama.Lemmas.Ls.ComposeEnvSolveExample
+import Gama.Lemmas.Ls.ComposeGapEnvSolve
+import Gama.Lemmas.Ls.ComposeGapExample
 import Gama.Lemmas.LS.Transform
 import Mathlib.Analysis.Real.Sqrt
 namespace Gama.Props.C01
@@ -85,6 +87,23 @@ theorem C01_envsolve_min_norm (hsq : IsSqrt (SqrtFn.sq : K → K)) (p : Problem 
   exact ⟨hls.minimal (hW ▸ gram_symm W) (hW ▸ gram_psd W), hls.rtr_eq_Phi,
     hls.min_norm_among_minimisers (hW ▸ gram_symm W) (hW ▸ gram_pd W hWinj)⟩
 
+/-- **one hypothesis on the problem data** instead of the solver's trace: the weighted gap condition
+    `GapAllP A P sqrt(eps)` — every exact Schur-complement pivot of `AᵀPA`, in any pivot order, is 0 or
+    larger than the tolerance of `Envelope::cholDec` — gives `Env.SolveUnambiguous p`, whatever
+    ordering RCM picks and whatever factor the homogenisation computes -/
+theorem C01_envsolve_unambiguous_of_gap (hsq : IsSqrt (SqrtFn.sq : K → K)) (p : Problem K) (hin : Env.InputOK p)
+    (P : Matrix (Fin p.m) (Fin p.m) K) (hP : p.C * P = 1) (hG : GapAllP p.A P (Env.sqrtEps : K)) :
+    Env.SolveUnambiguous p :=
+  Env.solveUnambiguous_of_gap hsq p hin P hP hG
+
+/-- `C01_envsolve` with the trace hypothesis replaced by the gap condition on `(A, P)` -/
+theorem C01_envsolve_of_gap (hsq : IsSqrt (SqrtFn.sq : K → K)) (p : Problem K) (hin : Env.InputOK p)
+    (hreg : Env.RegListOK p) (P : Matrix (Fin p.m) (Fin p.m) K) (hP : p.C * P = 1)
+    (hG : GapAllP p.A P (Env.sqrtEps : K))
+    (a : Answer K) (h : envSolve p = .ok a) (hx : a.xErr = none) :
+    IsLSSolution p.A p.b P p.S (toVec p.n a.x) (toVec p.m a.r) a.rtr :=
+  envSolve_isLS hsq p hin hreg (Env.solveUnambiguous_of_gap hsq p hin P hP hG) P hP a h hx
+
 /-- `envSolve` as a whole throws only when `BlockDiagonal::cholDec` rejects a covariance block, and
     then it is `NonPositiveDefinite` (`Homogenization::run`, repo commit 7e9fd7d2) -/
 theorem C01_envsolve_throws (p : Problem K) (e : ErrKind) (h : envSolve p = .error e) :
@@ -147,6 +166,40 @@ example : ∃ h, Env.homogenize Ex.pEnvCorr = .ok h ∧ h.bt = #[1/2, 1/2, 6]
   obtain ⟨h, h1, h2⟩ := Ex.ok_of_toOption e
   simp only [Prod.mk.injEq] at h2
   exact ⟨h, h1, h2.1, h2.2⟩
+
+/-- non-vacuity of the gap form: `A = [1 1; 0 0]` (defect 1, exact pivots 0 and 1), unit weights,
+    `S = {1}` over ℚ meets `InputOK`, `RegListOK`, `p.C·1 = 1` and `GapAllP A 1 sqrt(eps)`; the model
+    answers with defect 1 -/
+example : Env.InputOK (GapEx.pGap (.subset [1])) ∧ Env.RegListOK (GapEx.pGap (.subset [1]))
+    ∧ (GapEx.pGap (.subset [1])).C * 1 = 1
+    ∧ GapAllP (GapEx.pGap (.subset [1])).A 1 (Env.sqrtEps : ℚ)
+    ∧ ∃ a, envSolve (GapEx.pGap (.subset [1])) = .ok a ∧ a.defect = 1 ∧ a.xErr = none := by
+  refine ⟨⟨?_, by decide, ?_⟩, ?_, ?_, ?_, ?_⟩
+  · intro b hb
+    have : b = ⟨2, 0, #[1, 1]⟩ := by simpa [GapEx.pGap] using hb
+    subst this
+    exact ⟨by decide, by decide⟩
+  · intro i hi
+    have : i = 0 ∨ i = 1 := by have : i < 2 := hi; omega
+    rcases this with rfl | rfl <;> simp [GapEx.pGap, Array.getD]
+  · intro l hl
+    have : l = [1] := by
+      have h : Reg.subset [1] = Reg.subset l := hl
+      injection h with h'; exact h'.symm
+    subst this
+    exact ⟨by decide, by decide⟩
+  · rw [Matrix.mul_one, ← Cadj_eq_C (GapEx.pGap (.subset [1])) (by decide)]
+    show (Cadj (GapEx.pGap (.subset [1])) : Matrix (Fin 2) (Fin 2) ℚ) = 1
+    decide +kernel
+  · rw [GapAllP.one, GapEx.pGap_A]
+    refine (gapAll_example ℚ).mono ?_
+    show (1 : ℚ) / ((67108864 : ℕ) : ℚ) ≤ 1 / 2
+    norm_num
+  · have e : (envSolve (GapEx.pGap (.subset [1]))).toOption.map (fun a => (a.defect, a.xErr)) = some (1, none) := by
+      decide +kernel
+    obtain ⟨a, h1, h2⟩ := Ex.ok_of_toOption e
+    simp only [Prod.mk.injEq] at h2
+    exact ⟨a, h1, h2.1, h2.2⟩
 
 /-- the square-root law is satisfiable: `Real.sqrt` -/
 example : IsSqrt Real.sqrt := ⟨fun _ h => Real.mul_self_sqrt h, fun x _ => Real.sqrt_nonneg x⟩
